@@ -8,11 +8,13 @@
           (redeem script 00 14 <hash160>), BIP141/BIP173 P2WPKH / P2WSH (witness version 0, bech32),
           BIP341/BIP350 P2TR (witness version 1, bech32m, program = x-only output key; BIP86 key-path tweak).
    The base58 digit conversion [b58_enc] (encoding.base58encode) and the bech32 encoders are those of the C11
-   model (Model/Base58.v, Model/Bech32.v); network prefixes come from the regenerated Gen/GenNetworks.v. *)
+   model (Model/Base58.v, Model/Bech32.v); network prefixes come from the regenerated Gen/GenNetworks.v.
+   std_address / frozen_address are the same standard encodings over the FROZEN specification table
+   (Model/SpecNetworks.v, written from the reference clients' chain parameters, never regenerated). *)
 From Coq Require Import ZArith List Bool.
 From Coq.Strings Require Import Byte.
 From Verif Require Import Lib.Bytes Crypto.Sha256 Crypto.Ripemd160 Crypto.Secp256k1
-  Gen.GenConsts Gen.GenNetworks Model.Wire Model.Base58 Model.Bech32.
+  Gen.GenConsts Gen.GenNetworks Model.SpecNetworks Model.Wire Model.Base58 Model.Bech32.
 Import ListNotations.
 Open Scope Z_scope.
 
@@ -173,6 +175,9 @@ Definition spec_p2sh (nw : network) (script : bytes) : bytes :=
 (* BIP141: witness program of P2WPKH nested in P2SH: OP_0 <20-byte key hash> *)
 Definition spec_redeem_p2wpkh (pubkey : bytes) : bytes := x00 :: x14 :: hash160 pubkey.
 Definition spec_p2sh_p2wpkh (nw : network) (pubkey : bytes) : bytes := spec_p2sh nw (spec_redeem_p2wpkh pubkey).
+(* BIP141: witness program of P2WSH nested in P2SH: OP_0 <32-byte SHA256 of the witness script> *)
+Definition spec_redeem_p2wsh (script : bytes) : bytes := x00 :: x20 :: sha256 script.
+Definition spec_p2sh_p2wsh (nw : network) (script : bytes) : bytes := spec_p2sh nw (spec_redeem_p2wsh script).
 Definition spec_p2wpkh (nw : network) (pubkey : bytes) : option bytes :=
   spec_bech32_enc (nw_prefix_bech32 nw) 0 (hash160 pubkey).
 Definition spec_p2wsh (nw : network) (script : bytes) : option bytes :=
@@ -212,8 +217,47 @@ Definition spec_address (nw : network) (st : script_type) (e : encoding) (data :
   | StP2pkh, EncBase58 => Some (spec_p2pkh nw data)
   | StP2sh, EncBase58 => Some (spec_p2sh nw data)
   | StP2shP2wpkh, EncBase58 => Some (spec_p2sh_p2wpkh nw data)
+  | StP2shP2wsh, EncBase58 => Some (spec_p2sh_p2wsh nw data)
   | StP2wpkh, EncBech32 => spec_p2wpkh nw data
   | StP2wsh, EncBech32 => spec_p2wsh nw data
   | StP2tr, EncBech32 => spec_p2tr_of_key nw data
   | _, _ => None
+  end.
+
+(* ---------------------------------------------------------------- the standard encodings over the frozen table *)
+
+(* the standard address for given version bytes (P2PKH, P2SH) and human-readable part: written without any
+   reference to the regenerated table *)
+Definition std_address (pa ps hrp : bytes) (st : script_type) (e : encoding) (data : bytes) : option bytes :=
+  match st, e with
+  | StP2pkh, EncBase58 => Some (spec_b58check (pa ++ hash160 data))
+  | StP2sh, EncBase58 => Some (spec_b58check (ps ++ hash160 data))
+  | StP2shP2wpkh, EncBase58 => Some (spec_b58check (ps ++ hash160 (spec_redeem_p2wpkh data)))
+  | StP2shP2wsh, EncBase58 => Some (spec_b58check (ps ++ hash160 (spec_redeem_p2wsh data)))
+  | StP2wpkh, EncBech32 => spec_bech32_enc hrp 0 (hash160 data)
+  | StP2wsh, EncBech32 => spec_bech32_enc hrp 0 (sha256 data)
+  | StP2tr, EncBech32 =>
+      match parse_point data with
+      | None => None
+      | Some P => match spec_taproot_output_key P with
+                  | Some q => spec_bech32_enc hrp 1 q
+                  | None => None
+                  end
+      end
+  | _, _ => None
+  end.
+
+(* ... for a row of the frozen specification table *)
+Definition frozen_address (sn : spec_network) : script_type -> encoding -> bytes -> option bytes :=
+  std_address (sn_prefix_address sn) (sn_prefix_address_p2sh sn) (sn_prefix_bech32 sn).
+
+(* P2TR of a 32-byte output key for a frozen row (BIP341 / BIP350) *)
+Definition frozen_p2tr (sn : spec_network) (output_key : bytes) : option bytes :=
+  spec_bech32_enc (sn_prefix_bech32 sn) 1 output_key.
+
+(* the frozen row of a network name; None = the name is not in the specification *)
+Definition frozen_address_by_name (name : String.string) (st : script_type) (e : encoding) (data : bytes) : option (option bytes) :=
+  match spec_network_by_name name with
+  | Some sn => Some (frozen_address sn st e data)
+  | None => None
   end.
